@@ -18,6 +18,7 @@ type crashInfo struct {
 	T        int64
 	D        map[int]*PlanSnap // store snapshot at the crash, per plan (nil: plan not in the store)
 	RestartT int64             // instant of the restart (-1: none)
+	NewRetT  int64             // instant at which coercion.New returned in the next incarnation (-1: it did not)
 	Final    map[int]*PlanSnap // store at the end of the next incarnation (next crash's D, or D2/hang read)
 }
 
@@ -25,7 +26,7 @@ func crashesOf(t *Trace) []*crashInfo {
 	var out []*crashInfo
 	for _, cs := range t.Crashes {
 		e := t.Events[cs]
-		ci := &crashInfo{Seq: cs, Gen: e.Gen, T: e.T, D: map[int]*PlanSnap{}, RestartT: -1, Final: map[int]*PlanSnap{}}
+		ci := &crashInfo{Seq: cs, Gen: e.Gen, T: e.T, D: map[int]*PlanSnap{}, RestartT: -1, NewRetT: -1, Final: map[int]*PlanSnap{}}
 		for _, d := range t.Direct["crash"] {
 			if d.Gen == e.Gen {
 				ci.D[PlanOfPath(d.Obj)] = d.Plan
@@ -34,6 +35,9 @@ func crashesOf(t *Trace) []*crashInfo {
 		for _, ev := range t.Events[cs:] {
 			if ev.Kind == EvRestart && ev.Gen == e.Gen+1 {
 				ci.RestartT = ev.T
+			}
+			if ev.Kind == EvNewRet && ev.Gen == e.Gen+1 {
+				ci.NewRetT = ev.T
 				break
 			}
 		}
@@ -106,6 +110,36 @@ func oracleC09(t *Trace, v *vset) {
 // plugin outcomes are a function of the action alone, computed from the spec
 // without looking at the engine.
 func refOutcome(p *PlanSpec) (st int, allowed map[int]bool) {
+	st, allowed, _ = refOutcomeBlocks(p)
+	return
+}
+
+// specConstant: every outcome of the plan is a function of the action alone and
+// returns before the action's timeout.
+func specConstant(p *PlanSpec) bool {
+	seqActs, checkActs := collectActions(p)
+	for _, c := range append(seqActs, checkActs...) {
+		if len(c.a.Script) > 0 {
+			return false
+		}
+		if k := c.a.Default.Kind; k != OK && k != Permanent {
+			return false
+		}
+		if ms(c.a.Default.LatMs) >= c.a.EffTimeout() {
+			return false
+		}
+	}
+	return true
+}
+
+// refOutcomeBlocks additionally returns the expected final status of every block
+// (StNotStarted for blocks that are never entered; -1 where the model does not
+// decide, i.e. blocks of a plan whose own gate fails).
+func refOutcomeBlocks(p *PlanSpec) (st int, allowed map[int]bool, blocks []int) {
+	blocks = make([]int, len(p.Blocks))
+	for i := range blocks {
+		blocks[i] = StNotStarted
+	}
 	allowed = map[int]bool{}
 	actOK := func(a *ActionSpec) bool { return a.Default.Kind == OK && len(a.Script) == 0 }
 	groupOK := func(c *ChecksSpec) bool {
@@ -117,7 +151,7 @@ func refOutcome(p *PlanSpec) (st int, allowed map[int]bool) {
 		return true
 	}
 	if p.Bypass != nil && groupOK(p.Bypass) {
-		return StCompleted, allowed
+		return StCompleted, allowed, blocks
 	}
 	failed := false
 	deferred := func() {
@@ -137,11 +171,12 @@ func refOutcome(p *PlanSpec) (st int, allowed map[int]bool) {
 	}
 	if gate {
 		deferred()
-		return StFailed, allowed
+		return StFailed, allowed, blocks
 	}
 	for bi := range p.Blocks {
 		b := &p.Blocks[bi]
 		if b.Bypass != nil && groupOK(b.Bypass) {
+			blocks[bi] = StCompleted
 			continue
 		}
 		bf := false
@@ -167,10 +202,12 @@ func refOutcome(p *PlanSpec) (st int, allowed map[int]bool) {
 			bf = true
 		}
 		if bf {
+			blocks[bi] = StFailed
 			allowed[frBlock] = true
 			deferred()
-			return StFailed, allowed
+			return StFailed, allowed, blocks
 		}
+		blocks[bi] = StCompleted
 	}
 	if p.Post != nil && !groupOK(p.Post) {
 		allowed[frPost] = true
@@ -178,9 +215,9 @@ func refOutcome(p *PlanSpec) (st int, allowed map[int]bool) {
 	}
 	deferred()
 	if failed {
-		return StFailed, allowed
+		return StFailed, allowed, blocks
 	}
-	return StCompleted, allowed
+	return StCompleted, allowed, blocks
 }
 
 func reasonSet(m map[int]bool) string {
@@ -226,12 +263,16 @@ func agedOut(t *Trace, ci *crashInfo, d *PlanSnap) int {
 	}
 	maxAge := maxAgeOf(t.Res.Spec, ci.Gen+1)
 	st, wa := lastActivity(d)
-	ageStates := ci.RestartT - (st - epochUnixNs)
-	ageAttempts := ci.RestartT - (wa - epochUnixNs)
+	// The engine reads the clock somewhere between the restart and the return of coercion.New
+	// (later than the restart when storage replies are slow).
+	earliest, latest := ci.RestartT, ci.NewRetT
+	if latest < earliest {
+		latest = 1 << 62 // New never returned: no upper bound
+	}
 	switch {
-	case ageAttempts > maxAge:
+	case earliest-(wa-epochUnixNs) > maxAge: // stale even at the earliest instant and by the most generous reading
 		return 1
-	case ageStates <= maxAge:
+	case latest-(st-epochUnixNs) <= maxAge: // live even at the latest instant and by the strictest reading
 		return -1
 	}
 	return 0
